@@ -19,10 +19,28 @@ def c15(run):
     cap_ = 2500 if quick else 40000
     if total > cap_:
         cases = rnd.sample(cases, cap_)
+    # replay-only dimensions (same prediction): the candidate arrives as the soft-failing answer to a stale Syncer.Head();
+    # the getter fails with header.ErrNotFound; every request from the failing step on fails
+    import copy
+    extra = []
+    for c in cases:
+        r = rnd.random()
+        if r < (0.35 if quick else 1.0):
+            c2 = copy.deepcopy(c)
+            c2["in"]["via"] = "head"
+            extra.append(c2)
+        if c["in"]["failAt"] != 0 and rnd.random() < (0.5 if quick else 1.0):
+            c2 = copy.deepcopy(c)
+            c2["in"]["fk"] = "notfound"
+            c2["in"]["failAll"] = rnd.random() < 0.5
+            c2["in"]["via"] = rnd.choice(["", "head"])
+            extra.append(c2)
+    run.cov["replay_variants"] = len(extra)
+    cases = cases + extra
     for i, c in enumerate(cases):
         c["id"] = i
     run.cov["rows_total"], run.cov["rows_executed"] = total, len(cases)
-    run.cov["exhaustive"] = total == len(cases)
+    run.cov["exhaustive"] = total <= len(cases) - len(extra)
     for c in cases[:2] + cases[-1:]:
         run.sample({"in": c["in"], "predicted": c["predicted"]})
     run.cov["rule"] = ("every (distance, trust predicate, forged?, getter failure step, forged intermediate) row of Bifurcation.tla is delivered to the real Syncer "
@@ -66,7 +84,9 @@ def c16(run):
         nh = i.get("nhead", 1)
         faster = any(ts[k + 1] - ts[k] < i.get("bt", 0) for k in range(0, max(0, nh - 1)))
         return {"bt0": i.get("bt") == 0, "empty_store": i.get("tail") == 0, "sfh": i.get("sfh", 0) > 0,
-                "blocks_faster_than_blockTime": faster, "new_head_beyond_local_head_plus_1": i.get("tail", 0) != 0 and nh > i.get("shead", 0) + 1}
+                "blocks_faster_than_blockTime": faster, "new_head_beyond_local_head_plus_1": i.get("tail", 0) != 0 and nh > i.get("shead", 0) + 1,
+                # the implementation-layer model of the unchanged code computes a new tail beyond the local head + 1 for this row
+                "model_predicts_error": (c.get("predicted") or {}).get("kind") == "error"}
     judge(run, cases, "TestTail", "SyncerTailTrace", ["C16_"], shards=8, pkg="synch", sig_fn=sig)
     apalache_tail(run)
     if unclassified and not run.violations:
@@ -108,6 +128,9 @@ def c19(run):
     # schedule replay through the sync yield point: a Head() caller parked inside syncStore.Append while gossip and the
     # sync loop move the head (the interleaving behind finding D13)
     judge(run, [{"id": 0, "from_tlc": False}], "TestHeadRace", "SyncerHeadTrace", ["C19_", "IMPL_race"], shards=1, pkg="synch")
+    # composition: the real Syncer over the real p2p.Exchange (scripted peer on mocknet), tracker populated or empty:
+    # the head request of a stale subjective head is verified against it whichever peers the Exchange falls back to
+    judge(run, [{"id": 0, "from_tlc": False}], "TestComposite", "CompositeTrace", ["C19_"], shards=1, pkg="p2ph")
 
 
 def syncer_cfg(n, maxreq, faults, events, export, live=False):
